@@ -178,18 +178,16 @@ Definition safe_cast (from to : dty) (c : Z) : outcome Z :=
       let v := cast tr q in
       if negb (cast op v =? q) || sign_mismatch q v then Err OutOfRange else Ok v
     else
-      let cc := cast op c in
+      (* the ratio is reduced: exact only for a multiple of den; then the quotient times num, range-checked *)
+      if is_signed sr && negb (is_signed tr) && (c <? 0) then Err OutOfRange else
+      if negb (Z.rem (cast op c) (cast op den) =? 0) then Err OutOfRange else
+      q <- cdiv op (cast op c) (cast op den) ;;
       hi <- cdiv op (tmax op) (cast op num) ;;
       lo <- cdiv op (tmin op) (cast op num) ;;
-      if (hi <? cc) || (cc <? lo) then Err OutOfRange else
-      m <- arith op (cc * cast op num) ;;
-      q <- cdiv op m (cast op den) ;;
-      let v := cast tr q in
-      if v =? 0 then Ok v else
-      let mt := uac tr I64 in
-      m2 <- arith mt (cast mt v * cast mt den) ;;
-      q2 <- cdiv mt m2 (cast mt num) ;;
-      if negb (cast sr q2 =? c) then Err OutOfRange else Ok v.
+      if (hi <? q) || (q <? lo) then Err OutOfRange else
+      v <- arith op (q * cast op num) ;;
+      let t := cast tr v in
+      if negb (v =? cast op t) || sign_mismatch v t then Err OutOfRange else Ok t.
 
 Definition as_out_of_range {A} (x : outcome A) : outcome A :=
   match x with Err _ => Err OutOfRange | _ => x end.
